@@ -305,8 +305,10 @@ func (x *Explorer) expand(w *World, d int, path []string, next func(w *World, pa
 		}
 		b, bs := nw.BuildBlock(bc.V1, bc.V2, BlockOpts{})
 		np := append(append([]string(nil), path...), "block["+strings.Join(names, " + ")+"]")
-		if x.step(w, nw, b, bs, np, true) {
+		if x.step(w, nw, b, bs, np, !bc.ExpectReject) {
 			next(nw, np, d-1)
+		} else if bc.ExpectReject {
+			x.Feat("legacy_only_action_rejected")
 		}
 	})
 	// reverts
